@@ -45,6 +45,15 @@ static USES_IN_WINDOW: AtomicU64 = AtomicU64::new(0);
 /// a thread started inside the current lending call has not been joined yet
 static WORKER_ALIVE: AtomicBool = AtomicBool::new(false);
 
+/// the script holds a reference to a part of the lent object (`&mut Gauge`
+/// handed out by a method): until it lets go, no method of the object itself
+/// may run (two `&mut` to overlapping host memory)
+static PART_HELD: AtomicBool = AtomicBool::new(false);
+
+fn part_held(v: bool) {
+    PART_HELD.store(v, Ordering::SeqCst);
+}
+
 fn outside_window(what: &str, when: &str) -> ! {
     // Who enters a method outside the window, and in which history, names the
     // finding: a worker whose view of the object was taken inside the window;
@@ -76,6 +85,12 @@ impl Probe {
         }
         if self.canary != CANARY {
             report::violation("C20/host-object-corrupt", format!("{}: canary {:#x}", what, self.canary));
+        }
+        if when == "at-entry" && PART_HELD.load(Ordering::SeqCst) {
+            report::violation(
+                "C20/object-used-while-a-reference-to-its-part-is-held",
+                format!("the method {} of the lent object ran while the script held a reference to a part of it (a second mutable reference into the same host object)", what),
+            );
         }
     }
     pub fn get(&mut self) -> isize {
@@ -225,6 +240,7 @@ impl Scenario for C20 {
         engine.register_fn("probe-get", Probe::get);
         engine.register_fn("probe-inc", Probe::inc);
         engine.register_fn("gauge-read", Gauge::read);
+        engine.register_fn("part-held!", part_held);
         // a method that hands out a reference to a part of the lent object
         RegisterFn::<_, MarkerWrapper7<(Probe, Gauge, Gauge, Probe)>, Gauge>::register_fn(&mut engine, "probe-gauge", Probe::gauge);
         vmh::set_context("prelude");
@@ -260,6 +276,9 @@ impl Scenario for C20 {
             let holds_part = sname.contains("sub-reference");
             if !holds_part {
                 body.push_str("(probe-get *ext*)\n");
+            } else if fault != "script-error" {
+                // while the part reference is held, a use of the object itself must be refused
+                body.push_str("(part-held! #t)\n(with-handler (lambda (e) 'refused) (probe-get *ext*))\n(with-handler (lambda (e) 'refused) (probe-gauge *ext*))\n(part-held! #f)\n");
             }
             let before = USES_IN_WINDOW.load(Ordering::SeqCst);
             vmh::MAIN_DISPATCHES.store(0, Ordering::SeqCst);
@@ -272,6 +291,7 @@ impl Scenario for C20 {
             // ---- the lending window
             WORKER_ALIVE.store(fault == "thread", Ordering::SeqCst);
             LENT[0].store(true, Ordering::SeqCst);
+            PART_HELD.store(false, Ordering::SeqCst);
             let res = if fault == "host-panic" {
                 // the host's own code inside the lending call panics after the
                 // script ran; the embedder catches the panic and carries on
